@@ -131,7 +131,10 @@ def wrapper_case(case):
     if cfg.get("chain") and isinstance(case.get("chain"), dict) and case["chain"]:
         # second call on the first call's result: every numeric column by one sample, not in place (DfWrapper.tla ApplyShift)
         r_before = r.copy(deep=True)
-        r2 = dsp.df_timeshift(r, fs, 1.0 / fs, columns=None, truncate=None, inplace=False)
+        if cfg["fn"] == "timeshift":
+            r2 = dsp.df_timeshift(r, fs, 1.0 / fs, columns=None, truncate=None, inplace=False)
+        else:
+            r2 = dsp.df_detrend(r, columns=None, order=0, inplace=False)
         if not r.equals(r_before):
             probs.append(("caller_frame_modified", "second call", ""))
         want = set(case["chain"].keys()) | {"s"}
@@ -141,7 +144,7 @@ def wrapper_case(case):
         for name, prov in case["chain"].items():
             val = df0[prov["root"]].to_numpy()
             for s2 in prov["shifts"]:
-                val = dsp.timeshift(val, s2 / 2.0)
+                val = dsp.timeshift(val, s2 / 2.0) if cfg["fn"] == "timeshift" else dsp.polynomial_detrend(np.asarray(val, dtype=float), order=int(s2))
             if not np.allclose(np.asarray(r2[name], dtype=float), np.asarray(val, dtype=float), rtol=0, atol=1e-9):
                 probs.append(("column_after_second_call", name, f"expected {prov['root']} shifted by {[s2 / 2 for s2 in prov['shifts']]} samples"))
     return probs
@@ -160,6 +163,9 @@ def record_high_order(spec):
         tt = (t - N / 2) / (N / 2)
         data = np.polyval(coef, tt)
         s = float(rng.uniform(-3, 3)) if spec["kind"] in ("frac", "long") else float(rng.integers(-3, 4)) + float(rng.choice([0.0, 0.5, 0.125]))
+        if spec["kind"] == "tiny":
+            # shifts whose fractional part s - floor(s) rounds to exactly 1.0 (tiny negative), or to the smallest positive fractions
+            s = float(rng.choice([-2.0 ** -54, -1e-17, 0.3 - 0.1 - 0.2, -2.0 ** -60, 2.0 ** -54, 1e-17, -1.0 - 2.0 ** -53]))
         fr = np.array([s - np.floor(s)])
         taps = dsp.lagrange_taps(fr, h)[0]
         qsum = abs(float(np.sum(taps)) - 1.0)
@@ -217,7 +223,8 @@ def long_delay(item):
 def run(tier):
     V = common.Verdict(PID, tier, "model_checking")
     sd = common.seed()
-    consts = dict(TNs=Raw("{8}"), Hs=Raw("{1,2,3}"), Fracs=Raw("{<<0,1>>,<<1,4>>,<<1,2>>,<<3,4>>}"), EmitCases=True)
+    # TNs 6, 4, 2: records of exactly order+1 samples for h = 3, 2, 1 (a single interior sample)
+    consts = dict(TNs=Raw("{8, 6, 4, 2}"), Hs=Raw("{1,2,3}"), Fracs=Raw("{<<0,1>>,<<1,4>>,<<1,2>>,<<3,4>>}"), EmitCases=True)
     if tier == "thorough":
         consts.update(TNs=Raw("{7, 9}"), Fracs=Raw("{<<0,1>>,<<1,4>>,<<1,2>>,<<3,4>>,<<1,3>>,<<2,3>>}"))     # eighths overflow 32 bits with the degree-5 record
     res = tlc.run_model("Timeshift", f"{PID}_model", constants=consts, invariants=INV, timeout=3600)
@@ -254,6 +261,8 @@ def run(tier):
     specs = [dict(seed=rnd.randrange(2 ** 31), kind=["frac", "mixed"][k % 2], orders=[1, 3, 5, 7, 9, 15, 31, 63, 111] if k % 2 == 0 else [11, 21, 41, 81, 101])
              for k in range(6 if tier == "quick" else 40)]
     specs.append(dict(seed=rnd.randrange(2 ** 31), kind="long", orders=[3, 31]))
+    for k in range(2 if tier == "quick" else 8):       # shifts within 2^-53 of an integer, from below and above
+        specs.append(dict(seed=rnd.randrange(2 ** 31), kind="tiny", orders=[1, 3, 7, 31, 1, 5, 31, 3]))
     trs = common.pmap(record_high_order, specs, chunksize=1)
     vd, tres = traces.validate("TimeshiftTrace", f"{PID}_trace", trs)
     V.model(tres, "TimeshiftTrace.tla (orders up to 111)")
